@@ -78,7 +78,7 @@ class Builder:
                  ("catch", 7), ("raise", 3), ("throw", 2), ("safe", 3 if main and not self.in_safe else 0), ("setcg", 2 if main and self.use_setcg else 0),
                  ("install", 2 if main and not self.use_setcg else 0), ("installbad", 2 if main and not self.use_setcg else 0), ("load", 2 if main and not self.in_rep else 0),
                  ("clone", 2 if main else 0),
-                 ("inithook", 3 if main and not self.in_rep else 0), ("dhook", 3 if main and not self.in_rep else 0)]
+                 ("arity", 5), ("inithook", 3 if main and not self.in_rep else 0), ("dhook", 3 if main and not self.in_rep else 0)]
         k = rng.weighted(kinds)
         self.count(k)
         t = "t"
@@ -199,6 +199,29 @@ class Builder:
                 self.prep.append('load_object ("%s");' % path)
                 stmts.append('new ("%s");' % path)
             ops.append("(tmp 1 (load (call other %s 0 0 (call local %s 0 0 %s))))" % (t, t, " ".join(o)))
+        elif k == "arity":
+            # surplus / missing arguments through call_other and through a function pointer; callee with 0 or 4 locals
+            passed, declared = rng.range(0, 3), rng.range(0, 3)
+            b, o = self.sub(fctx, depth)
+            few = rng.chance(1, 2)
+            params = ", ".join("int a%d" % j for j in range(declared))
+            if few:
+                # a callee without locals that only calls on: the value stack is as low as it can be
+                inner = self.fn(fctx, b)
+                i = self.fresh()
+                name = "f%d" % i
+                self.files[fctx]["fns"].append("void %s (%s) { %s (); }" % (name, params, inner))
+                body_ops = "(call local %s 0 0 %s)" % (t, " ".join(o))
+            else:
+                name = self.fn(fctx, b, params=params)
+                body_ops = "(tmp 4 %s)" % " ".join(o)
+            args = ", ".join(str(j + 1) for j in range(passed))
+            if rng.chance(1, 2):
+                stmts.append("this_object ()->%s (%s);" % (name, args))
+                ops.append("(call other %s %d %d %s)" % (t, passed, declared, body_ops))
+            else:
+                stmts.append("evaluate ((: %s :)%s);" % (name, (", " + args) if args else ""))
+                ops.append("(call fplocal %s %d %d %s)" % (t, passed, declared, body_ops))
         elif k == "inithook":
             # an object with an init() hook moves itself into the room where the living `mob` stands:
             # move_object() sets command_giver = mob and applies init() in the object
@@ -317,6 +340,34 @@ DEPTH_ACTIONS = {
 }
 
 
+def arity_case(passed, declared, nlocals, body):
+    """the driver's safe_apply() of a function that declares `declared` parameters, handed `passed` arguments;
+    the callee has `nlocals` locals; error at every instruction (and a raised one when body == 'raise')"""
+    params = ", ".join("int a%d" % i for i in range(declared))
+    locs = " ".join("int l%d;" % i for i in range(nlocals))
+    if body == "raise":
+        stmt, bops = 'error ("boom1\\n");', "(raise boom1)"
+    elif body == "call":
+        stmt, bops = "leaf ();", "(call local t 0 0 (say x))"
+    else:
+        stmt, bops = 'VL ("say x");', "(say x)"
+    fns = ['void leaf () { VL ("say x"); }', "void tgt (%s) { %s %s }" % (params, locs, stmt)]
+    ops = "(safe %d %d (tmp %d %s))" % (passed, declared, nlocals, bops)
+    cid = "b-arity-safe-p%d-d%d-l%d-%s" % (passed, declared, nlocals, body)
+    return fixed_case(cid, "", ops, fns=fns, inject="injectsafe t tgt %d" % passed)
+
+
+def arity_fp_case(passed, declared, nlocals, body):
+    """the driver's safe_call_function_pointer() (socket callbacks) of (: tgt :) with surplus / missing arguments"""
+    params = ", ".join("int a%d" % i for i in range(declared))
+    locs = " ".join("int l%d;" % i for i in range(nlocals))
+    stmt, bops = ('error ("boom1\\n");', "(raise boom1)") if body == "raise" else ('VL ("say x");', "(say x)")
+    fns = ["void tgt (%s) { %s %s }" % (params, locs, stmt), "mixed getfp () { return (: tgt :); }"]
+    ops = "(safefp t %d %d (tmp %d %s))" % (passed, declared, nlocals, bops)
+    return fixed_case("b-arity-safefp-p%d-d%d-l%d-%s" % (passed, declared, nlocals, body), "", ops, fns=fns,
+                      inject="injectsafefp t getfp %d" % passed)
+
+
 def depth_case(action, maxdepth, frames_at_action, outer_catch):
     """recursion so that the action runs with exactly `frames_at_action` frames on the control stack"""
     stmt, aops = DEPTH_ACTIONS[action]
@@ -346,8 +397,11 @@ CATCHSTMT = 'p0 = this_player (); e = catch (%s); VL ("catch " + e + (e && this_
 class C05(Prop):
     id = "C05"
     title = "after any LPC error the machine state is as before the failed call"
-    lean_modules = ["NV.C05.Exec", "NV.C05.Guards", "NV.C05.Props", "NV.C05.Witness"]
-    theorems = ["NV.C05.saveContext_refuses_iff", "NV.C05.catch_refused", "NV.C05.safeApply_refused",
+    lean_modules = ["NV.C05.Exec", "NV.C05.Guards", "NV.C05.Tie", "NV.C05.Props", "NV.C05.Witness"]
+    theorems = ["NV.C05.tie_save_context", "NV.C05.tie_safe_recovery_point", "NV.C05.tie_restore_offset",
+                "NV.C05.tie_depth_tests", "NV.C05.tie_statement_shapes", "NV.C05.tie_frame_codes",
+                "NV.C05.safeFpFinish_total", "NV.C05.safeApply_all_arities", "NV.C05.call_all_arities", "NV.C05.safeFinish_total",
+                "NV.C05.saveContext_refuses_iff", "NV.C05.catch_refused", "NV.C05.safeApply_refused",
                 "NV.C05.context_chain_restored_any", "NV.C05.model_satisfies_spec", "NV.C05.exec_keeps_extension", "NV.C05.top_restores", "NV.C05.catch_yields_message_exec",
                 "NV.C05.guards_reset_first_level", "NV.C05.exec_guards", "NV.C05.execCore_guards",
                 "NV.C05.restoreContext_guards", "NV.C05.exec_good", "NV.C05.execCore_good", "NV.C05.raise_rspec",
@@ -392,11 +446,103 @@ class C05(Prop):
             "call_other incl. surplus arguments, function pointers of every kind, map/filter/sort_array/unique_array "
             "callbacks, catch in catch, error()/throw(), safe applies via sprintf(\"%O\"), create() in load_object/new, "
             "input_to, enable_commands, init() hooks via move_object, move_or_destruct() hooks via destruct, and the program "
-            "as a callback of the real call_out() sweep); every program is run once per instruction with a fault injected there; a case "
+            "as a callback of the real call_out() sweep; arity -3..+3 through call_other / function pointers / the driver's "
+            "safe_apply and safe_call_function_pointer with 0 or 4 locals; every frame kind at exactly limit-2 / limit-1 / limit "
+            "frames of a lowered MaxCallDepth); every program is run once per instruction with a fault injected there; a case "
             "is non-trivial when its trace has >= 2 lines; distinct = distinct canonical implementation trace")
     not_covered = ["heart-beat switch-off in error_handler, the backend() main-loop resume point and reset()/clean_up() recovery are not exercised (the call_out() sweep resume point is)",
                    "C locals of efuns that are live across a longjmp (observed via ASan only)",
                    "value-stack depths inside efuns are approximated (only the depth after recovery is observed)"]
+
+    # ---- translator (T4-style): statement shapes / orders of the anchor functions, regenerated on every run ----
+    def gen_extra(self, ctx, bdir):
+        import re
+        from nvlib import extract as X
+
+        def body(path, name):
+            src = re.sub(r"/\*.*?\*/", "", open(os.path.join(E.REPO, path)).read(), flags=re.S)
+            m = re.search(r"^[^\n;{}]*\b%s\s*\([^;{]*\)\s*\{" % re.escape(name), src, re.M)
+            if not m:
+                raise X.TieBroken("fn:" + name, "function %s not found in %s" % (name, path))
+            i = src.index("{", m.start())
+            depth, j = 0, i
+            while j < len(src):
+                if src[j] == "{":
+                    depth += 1
+                elif src[j] == "}":
+                    depth -= 1
+                    if depth == 0:
+                        break
+                j += 1
+            return re.sub(r"/\*.*?\*/", "", src[i:j + 1], flags=re.S)
+
+        def need(site, cond, what):
+            if not cond:
+                raise X.TieBroken(site, "%s: expected statement not found (%s)" % (site, what))
+
+        def expr(e):
+            # tiny expression grammar: identifiers sp / num_arg / csp, integer literals, + and -
+            toks = re.findall(r"[A-Za-z_]\w*|\d+|[+\-]", e)
+            need("expr", "".join(toks) == re.sub(r"\s+", "", e), "expression outside the grammar: " + e)
+            names = {"sp": "sp", "num_arg": "numArg", "csp": "csp"}
+            return " ".join(names.get(t, t) for t in toks)
+
+        out = []
+        sc = body("src/error_context.c", "save_context")
+        m_sp = re.search(r"econ->save_sp\s*=\s*([^;]+);", sc)
+        m_csp = re.search(r"econ->save_csp\s*=\s*([^;]+);", sc)
+        need("save_context", m_sp and m_csp, "econ->save_sp / save_csp assignments")
+        out.append("/-- save_context: `econ->save_sp = %s;` -/\ndef saveContextSaveSp (sp : Nat) : Nat := %s" % (m_sp.group(1), expr(m_sp.group(1))))
+        out.append("/-- save_context: `econ->save_csp = %s;` -/\ndef saveContextSaveCsp (csp : Nat) : Nat := %s" % (m_csp.group(1), expr(m_csp.group(1))))
+        test = re.search(r"if\s*\(csp\s*==\s*&control_stack\[CONFIG_INT\s*\(__MAX_CALL_DEPTH__\)\s*-\s*(\d+)\]\)", sc)
+        link = sc.find("current_error_context = econ")
+        need("save_context", test and link >= 0, "depth test / linking")
+        out.append("/-- save_context: the frame index of the depth test is MaxCallDepth - this -/\ndef saveContextDepthOffset : Nat := %s" % test.group(1))
+        ret0 = sc.find("return 0", test.start())
+        out.append("/-- save_context: the refusal (`return 0`) comes before the context is linked into the chain -/\n"
+                   "def saveContextRefusesBeforeLinking : Bool := %s" % ("true" if 0 <= ret0 < link else "false"))
+        out.append("/-- save_context stores the two guards (save_object_limits) and command_giver -/\ndef saveContextSavesGuards : Bool := %s"
+                   % ("true" if "save_object_limits" in sc and "save_command_giver = command_giver" in sc else "false"))
+        rc = body("src/error_context.c", "restore_context")
+        m_off = re.search(r"csp\s*=\s*econ->save_csp\s*\+\s*(\d+)\s*;", rc)
+        need("restore_context", m_off, "csp = econ->save_csp + 1")
+        out.append("/-- restore_context: `csp = econ->save_csp + %s` then ONE pop_control_stack -/\ndef restoreCspOffset : Nat := %s" % (m_off.group(1), m_off.group(1)))
+        m_pop = re.search(r"([^\n]*)\n\s*pop_n_elems\s*\(sp\s*-\s*econ->save_sp\)\s*;", rc)
+        need("restore_context", m_pop, "pop_n_elems (sp - econ->save_sp)")
+        guarded = bool(re.search(r"\b(if|while)\b", m_pop.group(1)))
+        out.append("/-- restore_context: `pop_n_elems (sp - econ->save_sp)` is not guarded by a condition -/\n"
+                   "def restorePopsUnconditionally : Bool := %s" % ("false" if guarded else "true"))
+        out.append("/-- restore_context restores command_giver and the two guards -/\ndef restoreRestoresCgAndGuards : Bool := %s"
+                   % ("true" if "command_giver = econ->save_command_giver" in rc and "restore_object_limits" in rc else "false"))
+        pops = len(re.findall(r"pop_control_stack\s*\(\)", rc))
+        out.append("/-- restore_context: number of pop_control_stack() calls -/\ndef restorePopFrameCalls : Nat := %d" % pops)
+        pc = body("src/error_context.c", "pop_context")
+        out.append("/-- pop_context relinks the chain and clears the error state -/\ndef popContextRelinksAndClears : Bool := %s"
+                   % ("true" if re.search(r"current_error_context\s*=\s*econ->save_context", pc) and "clear_error_state" in pc else "false"))
+        eh = body("src/error_context.c", "error_handler")
+        first_if = eh.find("if (current_error_context")
+        r1, r2 = eh.find("reset_destruct_object_limits"), eh.find("reset_load_object_limits")
+        need("error_handler", first_if >= 0, "catch branch")
+        out.append("/-- error_handler: both guard resets precede the catch branch -/\ndef errorHandlerResetsGuardsFirst : Bool := %s"
+                   % ("true" if 0 <= r1 < first_if and 0 <= r2 < first_if else "false"))
+        for fn, path, lean in (("safe_apply", "src/apply.c", "safeApply"), ("safe_call_function_pointer", "lib/lpc/functional.c", "safeFp")):
+            b = body(path, fn)
+            m = re.search(r"econ\.save_sp\s*=\s*([^;]+);", b)
+            rhs = m.group(1) if m else "sp"
+            out.append("/-- %s: recovery point `econ.save_sp = %s` -/\ndef %sSaveSp (sp numArg : Nat) : Nat := %s" % (fn, rhs, lean, expr(rhs)))
+            after = b[b.find("restore_context"):] if "restore_context" in b else ""
+            out.append("/-- %s: no `pop_n_elems (num_arg)` after restore_context -/\ndef %sPopsArgsAfterRestore : Bool := %s"
+                       % (fn, lean, "true" if re.search(r"pop_n_elems\s*\(num_arg\)", after) else "false"))
+        dc = body("src/frame.c", "do_catch")
+        out.append("/-- do_catch: the limit bit is set again after pop_context, before the re-raise -/\ndef catchKeepsLimitBit : Bool := %s"
+                   % ("true" if re.search(r"pop_context\s*\(&econ\);\s*set_error_state\s*\(ES_STACK_FULL\)", dc) else "false"))
+        out.append("/-- do_catch: save_context, then push_control_stack (FRAME_CATCH), then setjmp -/\ndef catchPushesFrameRightAfterSave : Bool := %s"
+                   % ("true" if 0 <= dc.find("save_context") < dc.find("push_control_stack (FRAME_CATCH)") < dc.find("setjmp") else "false"))
+        pcs = body("src/frame.c", "push_control_stack")
+        t2 = re.search(r"CONFIG_INT\s*\(__MAX_CALL_DEPTH__\)\s*-\s*(\d+)", pcs)
+        need("push_control_stack", t2, "depth test")
+        out.append("/-- push_control_stack: the frame index of the depth test is MaxCallDepth - this -/\ndef pushDepthOffset : Nat := %s" % t2.group(1))
+        return "\n".join(out) + "\n"
 
     def prepare(self, ctx):
         self.exe = E.compile_harness("c05", [os.path.join(E.VERIF, "harness/c05/c05.c")])
@@ -459,6 +605,20 @@ class C05(Prop):
                             "(catch (tmp 1 (dhook t (call other t 1 1 (throw t8))))) (saycatch)",
                             fns=["object bx;"], prep=dprep % ("DT", "DT", "DT"),
                             extra_files={"DT": dsrc % 'throw ("t8");'}))
+        # a safe apply with two surplus arguments made from INSIDE an LPC evaluation: compiling a broken file makes the
+        # compiler call master::log_error(file, message), declared without parameters in the C05 master
+        B.append(fixed_case("b-arity-log_error", 'a = ({ 1, 2, 3 }); ' + CATCHSTMT % 'load_object ("/c05/gen/BAD")' + ' VL ("say kept-" + sizeof (a));',
+                            # (the error after the safe apply is raised by the same efun, not by an LPC instruction: `craise`)
+                            "(catch (tmp 1 (load (safe 2 0 (say compile-error)) (craise *Error in loading object '/c05/gen/BAD':)))) (saycatch) (say kept-3)",
+                            extra_files={"BAD": "void create () { int x = ; }\n"}))
+        # arity: safe_apply() from driver level with surplus / missing arguments (-3..+3), few / many locals
+        for passed in range(4):
+            for declared in range(4):
+                for nlocals in (0, 4):
+                    for body in ("say", "raise", "call"):
+                        B.append(arity_case(passed, declared, nlocals, body))
+                    for body in ("say", "raise"):
+                        B.append(arity_fp_case(passed, declared, nlocals, body))
         # the control-stack limit: every kind of frame push / save_context placed at exactly limit-2, limit-1 and limit
         # frames (save_context refuses at `limit` frames and must leave the chain alone)
         for action in sorted(DEPTH_ACTIONS):
@@ -476,6 +636,59 @@ class C05(Prop):
             budget = rng.range(4, 14) if tier != "thorough" else rng.range(4, 22)
             out.append(build_case(rng, "g%d" % i, budget))
         return out
+
+    # ---- oracle self-test: the string judge must reject hand-made bad traces (one per clause) ----
+    def extra_checks(self, ctx, tier, rng):
+        snap = "sp=-1 csp=-1 cg=u1 co=0 po=0 prog=0 ct=0 fp=-1 pc=null fio=0 vio=0 ctx=0 ld=0 rd=0"
+        probe = "caught *probe-err ; probe tp=u1 po=0 d=0 l=0 a=3,4 e=*probe-err  co=42 side in=0"
+        head = ["base " + snap, "probe0 " + probe]
+
+        def out(segs, after=snap, pr=probe):
+            return "outcome %s ; after=%s ; probe=%s" % (" ; ".join(segs), after, pr)
+        neg = [
+            ("sp", [out(["err *x", "fault-top"], snap.replace("sp=-1", "sp=0"))], "restore fault sp"),
+            ("csp", [out(["err *x", "fault-top"], snap.replace("csp=-1", "csp=0"))], "restore fault csp"),
+            ("ctx", [out(["done 1"], snap.replace("ctx=0", "ctx=1"))], "restore fault ctx"),
+            ("cg-fail", [out(["err *x", "fault-top"], snap.replace("cg=u1", "cg=t"))], "restore fault cg"),
+            ("cg-done-unlogged", [out(["done 1"], snap.replace("cg=u1", "cg=t"))], "restore fault cg"),
+            ("co", [out(["done 1"], snap.replace("co=0", "co=t"))], "restore fault co"),
+            ("pc", [out(["done 1"], snap.replace("pc=null", "pc=set"))], "restore fault pc"),
+            ("ld", [out(["caught *x", "catch *x", "done 1"], snap.replace("ld=0", "ld=1"))], "restore fault ld"),
+            ("rd", [out(["catch t1", "done 1"], snap.replace("rd=0", "rd=other"))], "restore fault rd"),
+            ("probe", [out(["done 1"], pr=probe.replace("a=3,4", "a=3"))], "probe fault differs"),
+            ("probe-destruct", [out(["done 1"], pr=probe.replace("d=0", "d=*Only this_object() can be destructed"))], "probe fault differs"),
+            ("half-install", [out(["caught nf", "catch nf", "done 1"], pr=probe.replace("in=0", "in=1"))], "half-install"),
+            ("catch-value", [out(["caught *boom1", "catch *other", "done 1"])], "catch-value"),
+            ("cg-changed", [out(["caught *boom1", "catch *boom1 cg-changed", "done 1"])], "command_giver not restored by catch"),
+            ("crash-line", ["crash signal 11"], "crash"),
+            ("sanitizer", ["sanitizer ERROR: AddressSanitizer: SEGV"], "crash"),
+        ]
+        pos = [("ok-fault", [out(["err *verif injected fault", "fault-top"])]),
+               ("ok-setcg", [out(["say set-cg", "done 1"], snap.replace("cg=u1", "cg=t"))]),
+               ("ok-install", [out(["say did-input_to", "done 1"], pr=probe.replace("in=0", "in=1"))]),
+               ("ok-throw", [out(["catch t7", "done 1"])])]
+        cases, want = [], {}
+        for name, lines, expect in neg:
+            cid = "oracle-neg-" + name
+            cases.append(E.Case(cid, ["# ops (throw t7)", "inject t run", "--"] + head + lines))
+            want[cid] = expect
+        for name, lines in pos:
+            cid = "oracle-pos-" + name
+            cases.append(E.Case(cid, ["# ops (throw t7)", "inject t run", "--"] + head + lines))
+            want[cid] = None
+        res = E.nvdrive(self.id, "judge", E.cases_text(cases))
+        problems = []
+        for c in cases:
+            v = res.get(c.id, [])
+            if want[c.id] is None:
+                if v != ["ok"]:
+                    problems.append({"kind": "obligation-broken", "name": "oracle-self-test " + c.id,
+                                     "detail": "the oracle rejects a good trace: %s" % v})
+            elif not any(want[c.id] in x for x in v):
+                problems.append({"kind": "obligation-broken", "name": "oracle-self-test " + c.id,
+                                 "detail": "the oracle accepts a bad trace (expected '%s'): %s" % (want[c.id], v)})
+        self.oracle_selftest = {"negative": len(neg), "positive": len(pos), "failed": len(problems)}
+        return problems
 
     def histogram(self, cases, impl):
         h = {}
